@@ -425,8 +425,6 @@ impl StorageEngine {
 
         match shard_guard.data.get(key) {
             Some(stored_value) if !stored_value.is_expired() => {
-                let ttl = stored_value.metadata.expires_at
-                    .map(|expires_at| expires_at.saturating_duration_since(Instant::now()));
                 let value = match &stored_value.value {
                     Value::SortedSet(skiplist) => {
                         let copy = SkipList::new();
@@ -437,6 +435,10 @@ impl StorageEngine {
                     }
                     other => other.clone(),
                 };
+                // measured after the copy: the caller adds it to the wall clock right away, and the time the copy
+                // of a big value takes must not move the deadline
+                let ttl = stored_value.metadata.expires_at
+                    .map(|expires_at| expires_at.saturating_duration_since(Instant::now()));
                 Ok(Some((value, ttl)))
             }
             _ => Ok(None),
